@@ -352,6 +352,11 @@ CHECKS = {
     technique='runtime monitoring: history monitor over Machine::run_query (every LeafAnswer is serialised by the worker) with a reference model of the expected answer stream; prefixes of the streams are consumed before the iterator is dropped',
     text='Histories of 3-10 queries run on one fresh machine each: fact-table calls with 0-2 arguments given, member/2 enumerations, unifications with atoms, integers incl. 2^70, floats, strings, lists and structures with unbound variables, failing goals, goals that throw at the first / k-th / last solution, a conjunction with a cut, goals without variables; per query the whole stream or a prefix of 0-3 answers is taken; the stream must consist of the model answers in order (bindings up to renaming), then an optional false marker, then the end; an exception must be reported once and end the stream; what a query answers must not depend on the history.',
     note='Known findings: K59 (after a query that threw or was consumed partially the machine is not clean: the old exception is reported again, later streams never end, panic in machine/mod.rs:1213, process death; keyed on histories that contain such a query, so histories without one are checked strictly) and K16 (an answer binding a partial list panics in lib_machine/mod.rs:403).'),
+ 'C39': dict(
+    level='exploration',
+    technique='runtime monitoring: reference recognizer: the check translates each generated grammar itself (DCG draft standard) into plain clauses and runs them on the reference interpreter; phrase/2,3 answers of the machine are compared with it',
+    text='Random three-layer grammars (terminal lists and strings, non-terminals with variable or constant arguments, {}//1 unifications, cuts, alternatives with | and ;, if-then-else, call//N, and a pushback rule) are loaded as DCG rules; for 14 sampled inputs over a b c of length 0-5 per grammar the list of all answers of phrase/3 (argument binding and remainder, in order) and of phrase/2 must equal the answers of the independently translated program on vt/miniprolog.py.',
+    note='\\\\+ in DCG bodies is rejected by library(dcgs) with a representation error and is therefore not generated (the property does not list it). Cases the reference cannot decide within its step budget are dropped.'),
 }
 
 NOT_APPLICABLE_REASON_UNBUILT = ('check designed in DESIGN.md but not built/validated yet in this session; '
